@@ -29,6 +29,7 @@ type Instance struct {
 	Model   string
 	Output  string
 	File    string
+	Replay  *ReplayInfo // what is needed to run the counterexample on the real code (post and safe obligations)
 }
 
 type Obligation struct {
@@ -39,6 +40,7 @@ type Obligation struct {
 	Text      string
 	Where     string
 	Cover     bool // vacuity probe: must be satisfiable
+	PkgDir    string
 	Instances []*Instance
 }
 
@@ -54,6 +56,7 @@ type LoopInfo struct {
 }
 
 type FuncExec struct {
+	pendingReplay *ReplayInfo
 	pk         *PkgCtx
 	fn         *ssa.Function
 	key        string
@@ -136,7 +139,7 @@ func (fx *FuncExec) prop(cl Clause) string {
 func (fx *FuncExec) addObl(name, kind, prop, text, where string, cover bool, st *State, goal Term, trail []string) {
 	o := fx.obls[name]
 	if o == nil {
-		o = &Obligation{Name: fx.key + "/" + name, Func: fx.key, Kind: kind, Prop: prop, Text: text, Where: where, Cover: cover}
+		o = &Obligation{Name: fx.key + "/" + name, Func: fx.key, Kind: kind, Prop: prop, Text: text, Where: where, Cover: cover, PkgDir: fx.pk.dir}
 		fx.obls[name] = o
 		fx.oblOrder = append(fx.oblOrder, name)
 	}
@@ -151,7 +154,7 @@ func (fx *FuncExec) addObl(name, kind, prop, text, where string, cover bool, st 
 	}
 	assumps := append([]Term(nil), st.pc...)
 	for _, g := range goals {
-		inst := &Instance{Assumps: assumps, Goal: g, Path: strings.Join(trail, ">")}
+		inst := &Instance{Assumps: assumps, Goal: g, Path: strings.Join(trail, ">"), Replay: fx.pendingReplay}
 		inst.Decls = fx.c.decls[:len(fx.c.decls):len(fx.c.decls)]
 		o.Instances = append(o.Instances, inst)
 	}
@@ -1063,11 +1066,17 @@ func (fx *FuncExec) doReturn(ps *pathState, r *ssa.Return) {
 		}
 	}
 	env := fx.specEnv(ps, token.NoPos, vars)
+	var results []Val
+	for _, res := range r.Results {
+		results = append(results, fx.val(st, res))
+	}
+	fx.pendingReplay = &ReplayInfo{fx: fx, kind: "post", st: st, results: results}
 	for i, cl := range fx.con.Ensures {
 		t := env.boolTerm(cl.Expr)
 		fx.noteSpecErr(env, cl)
 		fx.addObl("post."+clauseName(cl, i), "post", fx.prop(cl), cl.Text, cl.Line, false, st, t, ps.trail)
 	}
+	fx.pendingReplay = nil
 	if !fx.con.NoFrame {
 		fx.frameCheck(ps)
 	}
